@@ -6,7 +6,7 @@ import sys
 
 ROOT = os.path.dirname(os.path.dirname(os.path.abspath(__file__)))
 sys.path.insert(0, ROOT)
-from vlib.props import PROPS  # noqa: E402
+from vlib.props import PROPS, MANIFESTS  # noqa: E402
 
 meta = json.load(open(os.path.join(ROOT, "tools", "manifest_meta.json")))
 all_ids = [json.loads(l)["id"] for l in open(os.path.join(ROOT, "properties.jsonl"))]
@@ -14,7 +14,7 @@ checks = []
 for pid in all_ids:
     if pid not in PROPS or pid in meta.get("withdrawn", {}):
         continue
-    m = meta["checks"].get(pid, {})
+    m = MANIFESTS.get(pid, {})
     checks.append({
         "property_id": pid,
         "quick_cmd": "./check %s --tier quick" % pid,
